@@ -193,8 +193,10 @@ def scripted_random(mc, fake):
             setattr(mc, name, real)
 
 
-def execute(mc, lat, kind, tables, maxiter, x0, targets, sentinels=True, as_array=False, ret_array=False, inplace=False):
-    """run the real combinator once; returns the Run and the returned object"""
+def execute(mc, lat, kind, tables, maxiter, x0, targets, sentinels=True, as_array=False, ret_array=False, inplace=False,
+            warm=None):
+    """run the real combinator once; returns the Run and the returned object.  `warm`: a start point on which the SAME
+    combinator object is called first (its events are discarded): a combinator must not carry state from call to call"""
     run = Run(lat, kind, tables, targets, ret_array=ret_array, inplace=inplace)
     kw = {}
     if maxiter is not None:
@@ -214,6 +216,16 @@ def execute(mc, lat, kind, tables, maxiter, x0, targets, sentinels=True, as_arra
             f = mc.or_(*members, **kw)
         else:
             f = mc.not_(members[0], **kw)
+        if warm is not None:
+            try:
+                f([float(v) for v in warm])
+            except Exception:
+                pass
+            # forget what the warm-up call logged: the recorded call starts from a clean recorder
+            run.ev, run.exits, run.pending, run.problems, run.rawdraws = [], [], [], [], []
+            run.ndraw_events, run.cur = 0, None
+            if hasattr(run, "_u"):
+                del run._u
         try:
             res = f(x)
         except Exception as ex:
@@ -312,8 +324,11 @@ def record_all(mc, a, ck, scen):
     for nscen, (lat, kind, tabs, mi, s, tg, fl) in enumerate(scen):
         x0 = lat.points[s]
         fl = dict(fl, inplace=(nscen % 3 == 1 and not fl.get("ret_array", False)))   # every third run: in-place members
+        # every fourth run: the combinator object has already been used once, on another start point
+        warm = lat.points[(s * 5 + 3) % len(lat.points)] if nscen % 4 == 2 else None
+        fl["warm"] = list(warm) if warm is not None else None
         run, res = execute(mc, lat, kind, tabs, mi, x0, tg, True, fl.get("as_array", False), fl.get("ret_array", False),
-                           fl["inplace"])
+                           fl["inplace"], warm)
         meta = {"kind": kind, "tables": tabs, "maxiter": mi, "x0": list(x0), "targets": tg, "dim": lat.dim,
                 "flags": fl, "vectors": [list(v) for v in run.vecs], "rawdraws": run.rawdraws[:40]}
         desc = "%s_(%s) maxiter=%s x0=%s" % (kind, ", ".join(str(t) for t in tabs), mi, list(x0))
@@ -330,7 +345,7 @@ def record_all(mc, a, ck, scen):
             ck.violation("%s_:unexpected-use-of-random" % kind, dict(meta, problem=p), "%s: %s" % (desc, p))
         # the same run without sentinels returns the same vector (default onexit/onfail = None)
         run2, res2 = execute(mc, lat, kind, tabs, mi, x0, tg, False, fl.get("as_array", False), fl.get("ret_array", False),
-                             fl["inplace"])
+                             fl["inplace"], warm)
         try:
             same = [float(v) + 0.0 for v in res2] == [float(v) + 0.0 for v in res]
         except Exception:
